@@ -2,7 +2,7 @@
 C10 — the wheel invariant `WheelInv` and its preservation by every operation of the model (clause 2c),
 the sweep semantics and the sufficiency of the fuel of `visit` / `sweepLoop` (clause 2d).
 -/
-import NV.C10.LemmasArith
+import NV.C10.LemmasTie
 import NV.C10.LemmasCum
 
 namespace NV.C10
